@@ -45,3 +45,34 @@ func verifHarness_C05_dialect(kind int, n int) {
 	verifAssert(err3 == io.EOF, "C05/D/then-eof")
 	verifReach("C05/D")
 }
+
+// K: resynchronisation on a keyed link. A complete frame the keyed reader refuses (kind 0: a v1 frame, 1: an unsigned
+// v2 frame; every byte arbitrary, so marker bytes may occur inside it) followed by a correctly signed v2 frame: one
+// parse error that consumes exactly the refused frame, then the signed frame, then io.EOF.
+func verifHarness_C05_keyed(kind int, n int) {
+	keyb := verifNondetBytes(32)
+	key := new(V2Key)
+	copy(key[:], keyb)
+	refused := verifAnyFrameWire(kind, n)
+	seq, sys, comp, link := verifNondetU8(), verifNondetU8(), verifNondetU8(), verifNondetU8()
+	ts := verifNondetU64()
+	verifAssume(ts < 1<<48)
+	payload := verifNondetBytes(2)
+	ck := verifNondetU16()
+	sig := verifSpecSignature(keyb, 1, 0, seq, sys, comp, 77, payload, ck, link, ts)
+	good := verifSpecV2(1, 0, seq, sys, comp, 77, payload, ck, true, link, ts, sig)
+	src := &verifChunkReader{data: append(append([]byte{}, refused...), good...)}
+	rd := &Reader{ByteReader: src, InKey: key}
+	verifAssert(rd.Initialize() == nil, "C05/K/init")
+	f1, err1 := rd.Read()
+	verifAssert(f1 == nil && err1 != nil && verifIsReadError(err1), "C05/K/refused-frame-is-one-parse-error")
+	verifAssert(src.drawn-rd.BufByteReader.Buffered() == len(refused), "C05/K/refused-frame-consumed-whole")
+	f2, err2 := rd.Read()
+	verifAssert(err2 == nil && f2 != nil, "C05/K/following-signed-frame-delivered")
+	if err2 == nil {
+		verifAssert(verifEqBytes(verifWireOf(f2), good), "C05/K/following-frame-intact")
+	}
+	_, err3 := rd.Read()
+	verifAssert(err3 == io.EOF, "C05/K/then-eof")
+	verifReach("C05/K")
+}
